@@ -860,6 +860,110 @@ func reloadCase(opt *config.PersistOptions, wb bool) hcase {
 	return c
 }
 
+// scanUnderWriter (driver-side oracle, no Coq case: more than a thousand regions): the key space is covered without holes by n > 1024
+// regions; one writer keeps merging two neighbours and splitting them again through the real processRegionHeartbeat (around the
+// 1024th region and at random places), readers call RaftCluster.ScanRegions without limit and with limits above 1024.  Every state
+// of the cache is sorted and free of overlaps with unique ids (a split leaves a hole until the other half reports), so every answer
+// must be: sorted, no overlap, ids unique (the statement: no two regions served at the same time overlap).  Returns the first answer that is no chain and what the writer did.
+func scanUnderWriter(opt *config.PersistOptions, seed uint64, n, rounds int) (string, []hop) {
+	w := newWorld(false, opt)
+	defer w.close()
+	r := rng.New(seed)
+	key := func(i int) string {
+		if i <= 0 {
+			return ""
+		}
+		if i >= n {
+			return ""
+		}
+		return fmt.Sprintf("w%05d", i)
+	}
+	var ops []hop
+	stamp := int64(0)
+	send := func(id uint64, i, j int, ver uint64) {
+		stamp++
+		x := c07x.Region{ID: id, Start: key(i), End: key(j), Peers: []c07x.Peer{{ID: id*10 + 1, Store: 1}, {ID: id*10 + 2, Store: 2}}, Leader: id*10 + 1,
+			Size: 5, Ver: ver, ConfVer: 1, Term: 1, Stamp: stamp}
+		o := hop{K: "hb", R: &x}
+		w.run(&o)
+		ops = append(ops, o)
+	}
+	for i := 0; i < n; i++ {
+		send(uint64(i+1), i, i+1, 1)
+	}
+	ops = ops[:0] // the replay names the construction, not 1100 heartbeats
+	stop := make(chan struct{})
+	bad := make(chan string, 4)
+	var wg sync.WaitGroup
+	for t := 0; t < 3; t++ {
+		wg.Add(1)
+		go func(t int) {
+			defer wg.Done()
+			limits := []int{0, 2000, 1025}
+			for k := 0; ; k++ {
+				select {
+				case <-stop:
+					return
+				default:
+				}
+				lim := limits[(k+t)%len(limits)]
+				res := w.main.ScanRegions(nil, nil, lim)
+				seen := map[uint64]bool{}
+				for i, x := range res {
+					// (a split leaves a hole in the cache until the other half reports, so holes are legitimate states)
+					if x == nil || seen[x.GetID()] || (i > 0 && string(res[i-1].GetEndKey()) > string(x.GetStartKey())) ||
+						(i+1 < len(res) && len(x.GetEndKey()) == 0) {
+						var a, b string
+						if i > 0 {
+							a = fmt.Sprintf("region %d [%q,%q) v%d", res[i-1].GetID(), res[i-1].GetStartKey(), res[i-1].GetEndKey(), res[i-1].GetRegionEpoch().GetVersion())
+						}
+						if x != nil {
+							b = fmt.Sprintf("region %d [%q,%q) v%d", x.GetID(), x.GetStartKey(), x.GetEndKey(), x.GetRegionEpoch().GetVersion())
+						}
+						select {
+						case bad <- fmt.Sprintf("ScanRegions(\"\", \"\", %d) answered %d regions; entries %d and %d are %s and %s: no state of the cache has both", lim, len(res), i-1, i, a, b):
+						default:
+						}
+						return
+					}
+					seen[x.GetID()] = true
+				}
+			}
+		}(t)
+	}
+	ver := map[int]uint64{}
+	for k := 0; k < rounds; k++ {
+		i := 1023
+		if k%3 == 2 {
+			i = 1 + r.Intn(n-3)
+		}
+		v := ver[i]
+		if v < ver[i+1] {
+			v = ver[i+1]
+		}
+		v += 2
+		ver[i], ver[i+1] = v+1, v+1
+		send(uint64(i+1), i, i+2, v+1)   // region i absorbs region i+1
+		send(uint64(i+1), i, i+1, v+2)   // and splits again
+		send(uint64(i+2), i+1, i+2, v+2) // the right half keeps the old id of its range
+		select {
+		case d := <-bad:
+			close(stop)
+			wg.Wait()
+			return d, ops
+		default:
+		}
+	}
+	close(stop)
+	wg.Wait()
+	select {
+	case d := <-bad:
+		return d, ops
+	default:
+		return "", nil
+	}
+}
+
 // the check-then-put window: stream A (a new id, older in version than what stream B is about to put over its range) passes the
 // first PreCheckPutRegion and waits at c.Lock(); B is processed completely; A is then rejected by the check under the lock.
 // Nothing of A may have reached the cache or storage.
@@ -1025,6 +1129,11 @@ func main() {
 		emit(autoFlushRegression(opt))
 		emit(overtakenSaveProbe(opt, false)) // direct backend only: a save into the write-back batch is not a kv write the harness can park
 		emit(termProbe(opt))
+		if d, ops := scanUnderWriter(opt, *seed, 1100, 400); d != "" {
+			R.Violate("C06:scan-answer-matches-no-state-of-the-cache", d+" (1100 regions w00001.. covering the key space; the replay lists the writer's merge / split heartbeats so far)",
+				map[string]interface{}{"wb": false, "regions": 1100, "ops": ops})
+		}
+		R.Count("phase:scan-under-writer")
 		emit(reloadCase(opt, false))
 		emit(reloadCase(opt, true))
 		emit(termOnlyCase(opt))
